@@ -447,6 +447,75 @@ pub fn mods() -> SweepProfile {
     }
 }
 
+/// Literals longer than the 16-byte chunk limit around nested assertions of both directions (the emitter's
+/// direction flag must be restored on leaving each assertion): few constructors, deep sizes.
+pub fn longlook() -> SweepProfile {
+    let l17 = Node::Lit("abcdefghijklmnopq".chars().map(|c| c as u32).collect());
+    let unary = vec![Unary::Look(true, false), Unary::Look(false, false), Unary::Look(true, true), Unary::Look(false, true)];
+    SweepProfile {
+        profile: Profile { name: "P-longlook", leaves: vec![l17, ch('x')], unary, cat: true, alt: false, max_quant_nest: 0 },
+        flags: vec![fl("")],
+        alphabet: cps("x"),
+        size_quick: 7,
+        size_thorough: 8,
+        hay_quick: 0, // special haystack list, see sweep::longlook_hays
+        hay_thorough: 0,
+    }
+}
+
+/// v-mode class strings before, inside and after nested assertions of both directions (string pieces are
+/// emitted in the direction of the enclosing assertion).
+pub fn vlook() -> SweepProfile {
+    let q = |strs: &[&str]| Node::VClass(VClass { negated: false, op: VOp::Union, operands: vec![VOperand::QStrings(strs.iter().map(|s| s.chars().map(|c| c as u32).collect()).collect())] });
+    let unary = vec![Unary::Look(true, false), Unary::Look(false, false), Unary::Look(true, true), Unary::Look(false, true)];
+    SweepProfile {
+        profile: Profile { name: "P-vlook", leaves: vec![ch('a'), ch('b'), q(&["ab"]), q(&["ba", "b"])], unary, cat: true, alt: false, max_quant_nest: 0 },
+        flags: vec![fl("v")],
+        alphabet: cps("ab"),
+        size_quick: 6,
+        size_thorough: 7,
+        hay_quick: 4,
+        hay_thorough: 5,
+    }
+}
+
+/// Sub-expressions that can never match (the empty class) next to groups, quantified groups and
+/// assertions containing groups: what early-fail propagation may and may not discard.
+pub fn fail() -> SweepProfile {
+    let unary = vec![Unary::Group, Unary::Look(false, false), Unary::Look(true, true), q(0, None, true)];
+    SweepProfile {
+        profile: Profile { name: "P-fail", leaves: vec![Node::Class { negated: false, items: vec![] }, ch('a')], unary, cat: true, alt: true, max_quant_nest: 1 },
+        flags: vec![fl("")],
+        alphabet: cps("a"),
+        size_quick: 8,
+        size_thorough: 9,
+        hay_quick: 3,
+        hay_thorough: 4,
+    }
+}
+
+/// Case-insensitive backreferences whose fold partners have different encoded lengths, forwards and inside
+/// lookbehind (k / U+212A: 1 and 3 bytes; U+2C65 / U+023A: 3 and 2 bytes; U+10428 / U+10400: supplementary).
+pub fn icaseback() -> SweepProfile {
+    let unary = vec![Unary::Group, Unary::Look(true, false)];
+    SweepProfile {
+        profile: Profile {
+            name: "P-icaseback",
+            leaves: vec![ch('k'), ch('\u{212A}'), ch('\u{2C65}'), ch('\u{10428}'), Node::BackRef(1), Node::Dot],
+            unary,
+            cat: true,
+            alt: false,
+            max_quant_nest: 0,
+        },
+        flags: vec![fl("i"), fl("iu")],
+        alphabet: vec!['k' as u32, 0x212A, 0x2C65, 0x23A, 0x10428, 0x10400],
+        size_quick: 7,
+        size_thorough: 7,
+        hay_quick: 3,
+        hay_thorough: 3,
+    }
+}
+
 pub fn by_name(name: &str) -> Option<SweepProfile> {
     Some(match name {
         "core" => core(),
@@ -465,8 +534,12 @@ pub fn by_name(name: &str) -> Option<SweepProfile> {
         "vset" => vset(),
         "dupref" => dupref(),
         "mods" => mods(),
+        "longlook" => longlook(),
+        "vlook" => vlook(),
+        "fail" => fail(),
+        "icaseback" => icaseback(),
         _ => return None,
     })
 }
 
-pub const ALL: [&str; 16] = ["core", "capback", "anchor", "loops", "dotcap", "vset", "dupref", "look", "nest", "nestlook", "utf8", "icase", "lit", "onechar", "named", "mods"];
+pub const ALL: [&str; 20] = ["core", "capback", "anchor", "loops", "dotcap", "vset", "dupref", "look", "nest", "nestlook", "utf8", "icase", "lit", "onechar", "named", "mods", "longlook", "vlook", "fail", "icaseback"];
